@@ -3,6 +3,7 @@ package main
 import (
 	"fmt"
 	"go/token"
+	"go/types"
 	"strings"
 
 	"golang.org/x/tools/go/ssa"
@@ -136,6 +137,28 @@ func runC04(r *Run) {
 			}
 		})
 		r.atLeast("parseRoute calls at mount time", n, 2)
+		// … and is a list of its own: appending the route's constraints to app.customConstraints in place writes into
+		// the parent's backing array, where the next mounted sub-app overwrites them
+		na := 0
+		aliased := ""
+		for _, b := range pre.Blocks {
+			for _, in := range b.Instrs {
+				c, ok := in.(*ssa.Call)
+				if !ok {
+					continue
+				}
+				if bi, ok := c.Call.Value.(*ssa.Builtin); !ok || bi.Name() != "append" || len(c.Call.Args) == 0 {
+					continue
+				}
+				na++
+				if sharesBackingWith(c.Call.Args[0], func(v ssa.Value) bool { return loadOfField(v, "App.customConstraints") }) != nil {
+					aliased = r.pos(in)
+				}
+			}
+		}
+		r.count("append calls in addPrefixToRoute", na)
+		r.check(aliased == "", "addPrefixToRoute:constraint-list-of-its-own", r.fpos(pre), "no append on a slice that can share its backing array with App.customConstraints",
+			"the route's constraints are appended to app.customConstraints in place ("+aliased+"): with spare capacity they land in the parent's backing array, the next mounted sub-app overwrites them, and the first sub-app's constraint is no longer found — nothing is enforced")
 	})
 
 	r.rule("R3", "mount-time normalisation ≡ registration-time normalisation (shared with C03-R1)", func() {
@@ -181,6 +204,42 @@ func runC04(r *Run) {
 				}
 			}
 			r.atLeast("composition points", n, 8)
+			// a list of prefixes: what is registered (or mounted) inside the loop over the list is the list's element
+			isListElem := func(v ssa.Value) bool {
+				u, ok := v.(*ssa.UnOp)
+				if !ok || u.Op != token.MUL {
+					return false
+				}
+				ia, ok := u.X.(*ssa.IndexAddr)
+				if !ok {
+					return false
+				}
+				sl, ok := ia.X.Type().Underlying().(*types.Slice)
+				if !ok {
+					return false
+				}
+				b, ok := sl.Elem().Underlying().(*types.Basic)
+				return ok && b.Info()&types.IsString != 0
+			}
+			nl := 0
+			for _, m := range []string{"(*Group).Use", "(*App).Use"} {
+				f := r.Fn("", m)
+				for _, c := range callsIn(f, false) {
+					var arg ssa.Value
+					switch {
+					case strings.HasSuffix(c.Name, "App).register"):
+						arg = c.Common.Args[2]
+					case strings.HasSuffix(c.Name, "Group).mount"), strings.HasSuffix(c.Name, "App).mount"):
+						arg = c.Common.Args[1]
+					default:
+						continue
+					}
+					nl++
+					r.check(dependsOn(arg, isListElem) != nil, fmt.Sprintf("%s:%s#%d:registers-the-list-element", m, short(c.Name), nl), r.pos(c.Instr), "the prefix handed on is the element of the prefix list the loop is at",
+						m+" registers something else than the element of the prefix list it iterates: Use([]string{\"/admin\", \"/internal\"}, guard) puts the guard on the group's root, once per element, instead of on the listed prefixes")
+				}
+			}
+			r.atLeast("registrations in the prefix-list loops", nl, 4)
 			// the re-prefixed pattern is built from the route's raw registered pattern (Route.Path), like a group registration
 			// would see it — not from the sub-app's already normalised Route.path
 			pre := r.Fn("", "(*App).addPrefixToRoute")
